@@ -3,7 +3,7 @@
    A X + b" is (A m + b, A C A^T).  Generic field: holds for Qc (executable) and R. *)
 From Coq Require Import Arith ZArith List Bool Reals.
 From GPV Require Import Base.LinAlg Base.Exec Base.Expr Base.PySlice Models.C11_mtmvn Models.C10_mvn Proofs.C10_mvn Proofs.C10_kl
-  Models.C10_broadcast Proofs.C10_broadcast Base.Det Proofs.C10_det.
+  Models.C10_broadcast Proofs.C10_broadcast Base.Det Proofs.C10_det Models.C10_seq Proofs.C10_seq.
 Import ListNotations.
 
 (* indexing = marginal: for ANY index function p into the event dimension (slices, index
@@ -238,3 +238,105 @@ Example ex_c10_broadcast_31_2 :
   bshape [3; 1] [2] = Some [3; 2] /\ bindex [3; 1] [2; 1] = [2; 0] /\ bindex [2] [2; 1] = [1].
 Proof. exact ex_broadcast_31_2. Qed.
 Print Assumptions ex_c10_broadcast_31_2.
+
+(* ------------------------------------------------------------------ variance clamp (variance / stddev / confidence_region) *)
+
+(* the reported variance is max(diag, floor) entry by entry, for every size *)
+Theorem c10_variance_clamp_model :
+  forall mv n (C : @M QcF),
+    length (variance_clamped mv n C) = n /\
+    forall i, (i < n)%nat ->
+      let v := nth i (variance_clamped mv n C) mv in
+      Qcanon.Qcle mv v /\ Qcanon.Qcle (C i i) v /\ (Qcanon.Qcle mv (C i i) -> v = C i i) /\ (Qcanon.Qcle (C i i) mv -> v = mv).
+Proof. exact variance_clamped_spec. Qed.
+Print Assumptions c10_variance_clamp_model.
+
+(* the floor is settings.min_variance of the dtype of the variance TENSOR; the process default dtype plays no role *)
+Theorem c10_variance_floor_is_of_tensor_dtype :
+  forall default1 default2 tensor_dt fl,
+    variance_floor default1 tensor_dt fl = variance_floor default2 tensor_dt fl
+    /\ variance_floor default1 tensor_dt fl = floor_of fl tensor_dt.
+Proof. exact variance_floor_is_tensor_dtype. Qed.
+Print Assumptions c10_variance_floor_is_of_tensor_dtype.
+
+(* ------------------------------------------------------------------ operation sequences on one object *)
+
+(* EVERY finite sequence of public operations (scalar * and / of either sign, + constant, + independent MVN,
+   add_jitter, event indexing, and the law-preserving ones: property reads that fill caches, expand, unsqueeze, batch
+   indexing), from any start and any cache content: the object's (mean, covariance) is the law of A X + b + noise(E)
+   for the composed affine map (A, b, E) of the sequence.  All lengths, all sizes (event size may change under indexing) *)
+Theorem c10_op_sequence_is_affine :
+  forall (K : Fld) (ops : list aop) n (m C : M) cache,
+    aseq_valid ops n ->
+    let '(k, A, b, E) := aseq_affine ops n in
+    let '(k', m', C', _) := arun ops (n, m, C, cache) in
+    k' = k /\ meq k 1 m' (affine_mean n A b m) /\ meq k k C' (madd (affine_cov n A C) E).
+Proof. intros K. exact (@arun_is_affine K). Qed.
+Print Assumptions c10_op_sequence_is_affine.
+
+(* scalar steps only: a_1, ..., a_k in turn act as their product; the covariance is scaled by the square of the
+   product, whatever the signs *)
+Theorem c10_scalar_sequence_law :
+  forall (K : Fld) (l : list car) n (m C : M) cache,
+    let '(k, m', C', _) := arun (map AMul l) (n, m, C, cache) in
+    k = n /\ meq n 1 m' (mul_mean (scal_prod l) m) /\ meq n n C' (mul_cov (scal_prod l) C).
+Proof. intros K. exact (@arun_scalars K). Qed.
+Print Assumptions c10_scalar_sequence_law.
+
+(* caches are consistent along sequences: if every read that fills the Cholesky cache computed a factor of the
+   covariance the object had at that moment, then after every prefix of every sequence the cached factor (carried over
+   by expand / unsqueeze, dropped by every operation that changes the law) is a factor of the CURRENT covariance *)
+Theorem c10_cache_consistent_along_sequences :
+  forall (K : Fld) (ops1 ops2 : list aop) (s : astate),
+    cache_ok s -> aseq_reads_ok (ops1 ++ ops2) s -> cache_ok (arun ops1 s).
+Proof. intros K. exact (@cache_invariant_prefix K). Qed.
+Print Assumptions c10_cache_consistent_along_sequences.
+
+(* what could be carried across d * a instead of dropping the cache: |a| L is the Cholesky factor of a^2 C ... *)
+Theorem c10_cached_factor_times_abs :
+  forall n (a : R) (L C : @M RF),
+    tri_lower n L -> (forall i, (i < n)%nat -> (0 < L i i)%R) -> meq n n (@mmul RF n L (@mT RF L)) C -> a <> 0%R ->
+    tri_lower n (@mscale RF (Rabs a) L)
+    /\ (forall i, (i < n)%nat -> (0 < @mscale RF (Rabs a) L i i)%R)
+    /\ meq n n (@mmul RF n (@mscale RF (Rabs a) L) (@mT RF (@mscale RF (Rabs a) L))) (@mul_cov RF a C).
+Proof. exact scaled_factor_abs. Qed.
+Print Assumptions c10_cached_factor_times_abs.
+
+(* ... a L for a < 0 is NOT: it multiplies to a^2 C but its diagonal is negative *)
+Theorem c10_cached_factor_times_negative :
+  forall n (a : R) (L C : @M RF),
+    (forall i, (i < n)%nat -> (0 < L i i)%R) -> meq n n (@mmul RF n L (@mT RF L)) C -> (a < 0)%R ->
+    (forall i, (i < n)%nat -> (@mscale RF a L i i < 0)%R)
+    /\ meq n n (@mmul RF n (@mscale RF a L) (@mT RF (@mscale RF a L))) (@mul_cov RF a C).
+Proof. exact scaled_factor_negative. Qed.
+Print Assumptions c10_cached_factor_times_negative.
+
+(* KL with a covariance given by a rectangular root R (n x r, any r: RootLinearOperator with a wide or tall root):
+   the trace term is the sum of the r column quadratic forms (what inv_quad of [mean_diff, R] returns) and the constant
+   is the EVENT size n, not r *)
+Theorem c10_kl_rational_rectangular_root :
+  forall (K : Fld) n r (mp mq R Qi : M),
+    kl_rational n mp (mmul r R (mT R)) mq Qi
+    = fsub (fadd (sum r (fun c => quad n Qi (fun i _ => R i c))) (quad n Qi (msub mp mq))) (nat_f n).
+Proof. intros K. exact (@kl_rational_rect_root K). Qed.
+Print Assumptions c10_kl_rational_rectangular_root.
+
+(* non-vacuity: a sequence with a negative scalar, an index operation and a cache-filling read *)
+Example ex_c10_sequence :
+  run_seq (2%nat, [qc 1 2; qc 1 1], [[qc 2 1; qc 1 2]; [qc 1 2; qc 3 1]],
+           [SObserve; SMul (qc (-2) 1); SKeep; SGet [1%nat; 0%nat]; SDiv (qc 4 1)], qc 1 10, [qc 0 1; qc 1 1],
+           [qc 0 1; qc 0 1], [[qc 1 1; qc 0 1]; [qc 0 1; qc 2 1]])
+  = (2 :: [-1; 2; -1; 4] ++ [3; 4; 1; 8; 1; 8; 1; 2] ++ [3; 4; 1; 2]
+     ++ skipn 17 (run_seq (2%nat, [qc (-1) 2; qc (-1) 4], [[qc 3 4; qc 1 8]; [qc 1 8; qc 1 2]], [], qc 1 10,
+                           [qc 0 1; qc 1 1], [qc 0 1; qc 0 1], [[qc 1 1; qc 0 1]; [qc 0 1; qc 2 1]])))%Z.
+Proof. vm_compute. reflexivity. Qed.
+Example ex_c10_sequence_valid :
+  @aseq_valid QcF (map sop_aop [SObserve; SMul (qc (-2) 1); SKeep; SGet [1%nat; 0%nat]; SDiv (qc 4 1)]) 2.
+Proof. exact ex_seq_valid. Qed.
+Example ex_c10_cached_factor_hypotheses :
+  tri_lower 2 exR_L /\ (forall i, (i < 2)%nat -> (0 < exR_L i i)%R).
+Proof. exact ex_cached_factor_hyps. Qed.
+Print Assumptions ex_c10_cached_factor_hypotheses.
+Example ex_c10_clamp :
+  variance_clamped (qc 1 1000000) 2 (@of_list QcF [[qc 1 100000000; qc 0 1]; [qc 0 1; qc 3 1]]) = [qc 1 1000000; qc 3 1].
+Proof. vm_compute. reflexivity. Qed.
